@@ -135,6 +135,10 @@ func buildCases(st map[string]int) []Case {
 				shapes := []string{"full"}
 				if form == "response" && s < 30000 {
 					shapes = []string{"full", "sparse"}
+					switch ep.Kind {
+					case "ReadPromise", "SearchPromises", "CreatePromise", "CreatePromiseAndTask", "CompletePromise", "CreateCallback", "CreateSubscription":
+						shapes = append(shapes, "st2", "st4", "st8", "st16")
+					}
 				}
 				for _, shape := range shapes {
 					p := prod
